@@ -205,6 +205,7 @@ type ProxySpec struct {
 	RealDial     bool
 	Handler      bool // serve through the http.Handler implementation (TestingHTTPHandler)
 	ReqModifiers []forwarder.RequestModifier
+	PAC          forwarder.PACResolver // mutually exclusive with Upstream
 }
 
 // Proxy is a running proxy under test.
@@ -245,7 +246,7 @@ func (r *Rig) StartProxy(s ProxySpec) (*Proxy, error) {
 		ResponseHeaderTimeout: 5 * time.Second,
 		IdleConnTimeout:       30 * time.Second,
 	}
-	hp, err := forwarder.NewHTTPProxy(cfg, nil, cm, tr, log.NopLogger, nil)
+	hp, err := forwarder.NewHTTPProxy(cfg, s.PAC, cm, tr, log.NopLogger, nil)
 	if err != nil {
 		return nil, err
 	}
